@@ -7,7 +7,7 @@ for d in "$@"; do
   wt=/var/tmp/sens-$$-$(basename "$d" .diff)
   git -C /repo worktree add -q --detach "$wt" HEAD || exit 2
   if git -C "$wt" apply "$(readlink -f "$d")" 2>/dev/null; then
-    out=$(VERIF_REPO="$wt" VERIF_MAX_VIOLATIONS=1 VERIF_WORKERS="${VERIF_WORKERS:-8}" ./check "$prop" quick 2>&1); rc=$?
+    out=$(VERIF_REPO="$wt" VERIF_SNAPSHOT_SIM=1 VERIF_MAX_VIOLATIONS=1 VERIF_WORKERS="${VERIF_WORKERS:-8}" ./check "$prop" quick 2>&1); rc=$?
     case $rc in
       1) echo "CAUGHT $prop $d: $(echo "$out" | grep -m1 'class=' | cut -c1-160)";;
       0) echo "MISSED $prop $d";;
@@ -18,4 +18,3 @@ for d in "$@"; do
   fi
   git -C /repo worktree remove --force "$wt"
 done
-git -C "$(dirname "$0")/.." checkout -- evidence/"$prop".json 2>/dev/null
